@@ -10,22 +10,22 @@ RECURSIVE StagesOK(_, _, _, _)
 StagesOK(evs, k, o, t) ==
     IF k > Len(evs) THEN "ok"
     ELSE IF evs[k].stage \notin Stages THEN "ok"              \* a stage S does not know: not judged
-    ELSE IF ~StageAllowed(evs[k].stage, o, t) THEN "stage-ran-against-its-gate:" \o evs[k].stage
-    ELSE IF ~FlagAllowed(evs[k].stage, evs[k].flag, o, t) THEN "naming-flag-against-gate:" \o evs[k].stage
+    ELSE IF ~StageAllowed(evs[k].stage, o, t) THEN "gating:stage-ran-against-its-gate:" \o evs[k].stage
+    ELSE IF ~FlagAllowed(evs[k].stage, evs[k].flag, o, t) THEN "gating:naming-flag-against-gate:" \o evs[k].stage
     ELSE StagesOK(evs, k + 1, o, t)
 
 Verdict(r) ==
     IF ~OutcomeAllowed(r.parses, r.compiles, r.outcome, r.syntaxerr, r.compiles_out)
-    THEN (IF ~r.parses THEN "unparsable-source-did-not-raise-SyntaxError"
-          ELSE IF r.outcome # "return" THEN "compilable-source-raised:" \o r.outcome
-          ELSE "output-does-not-compile")
+    THEN (IF ~r.parses THEN "outcome:unparsable-source-did-not-raise-SyntaxError"
+          ELSE IF r.outcome # "return" THEN "outcome:compilable-source-raised:" \o r.outcome
+          ELSE "outcome:output-does-not-compile")
     ELSE IF r.seams THEN StagesOK(r.stages, 1, r.opts, r.tainted)
     ELSE "ok"
 
 VARIABLE i
 Init == i = 1
 Next == /\ i <= Len(Obs)
-        /\ LET v == Verdict(Obs[i]) IN (v # "ok") => PrintT(<<"VERDICT", Obs[i].id, v>>)
+        /\ LET v == Verdict(Obs[i]) IN (v # "ok") => PrintT(ToJson(<<"VERDICT", Obs[i].id, v>>))
         /\ i' = i + 1
 Spec == Init /\ [][Next]_i
 =============================================================================
